@@ -119,3 +119,44 @@ func extTimeAfterFunc(fr *frame, a []value) value {
 	z := zero(t)
 	return &z
 }
+
+func init() {
+	externals["sort.SliceStable"] = extSortSlice
+	externals["sort.Slice"] = extSortSlice
+	externals["sort.Strings"] = extSortStrings
+}
+
+// extSortSlice: stable insertion sort calling the target's less(i, j) and
+// swapping elements in place (the real implementation goes through
+// reflectlite.Swapper). The resulting order is the unique stable order.
+func extSortSlice(fr *frame, a []value) value {
+	it := a[0].(iface)
+	s, ok := it.v.([]value)
+	if !ok {
+		panic(unsupported("sort.Slice on non-slice"))
+	}
+	less := a[1]
+	for i := 1; i < len(s); i++ {
+		for j := i; j > 0; j-- {
+			r := fr.call(fr.curPos(), less, []value{j, j - 1}, nil)
+			if !fr.p.truth(r) {
+				break
+			}
+			s[j], s[j-1] = s[j-1], s[j]
+		}
+	}
+	return nil
+}
+
+func extSortStrings(fr *frame, a []value) value {
+	s := a[0].([]value)
+	for i := 1; i < len(s); i++ {
+		for j := i; j > 0; j-- {
+			if !fr.p.truth(fr.p.strLess(s[j], s[j-1])) {
+				break
+			}
+			s[j], s[j-1] = s[j-1], s[j]
+		}
+	}
+	return nil
+}
